@@ -2,6 +2,7 @@
 pub mod board;
 pub mod c10;
 pub mod c12;
+pub mod c13s;
 pub mod corpus;
 pub mod eng;
 pub mod oracle;
@@ -194,6 +195,7 @@ pub fn main() {
                 "C15" => uci::run_c15(&ctx),
                 "C10" => c10::run_c10(&ctx),
                 "C16" => uci::run_c16_uci(&ctx),
+                "C13" => c13s::run_c13_uci(&ctx),
                 other => Err(format!("unknown uci property '{other}'")),
             };
             if let Err(e) = r {
